@@ -597,3 +597,58 @@ ESCAPE_SHAPE = {
     "InvalidOperation": "decimal-non-numeric-string-outside-wrapper",
     "NotImplementedError": "typedfield-over-str-non-string-scalar-outside-wrapper",
 }
+
+
+# ------------------------------------------------------------------ the nesting lattice (keys that are not fields, at every level)
+
+def _map(v):
+    return {"t": "mapkv", "kf": STR, "vf": v, "sz": [None, None]}
+
+
+def nest_positions(x):
+    """(name, declaration holding a reference x to a nested structure, how a list of JSON objects of the nested
+    class is laid out as the field's document)"""
+    ref = {"t": "ref", "cls": x}
+    return [
+        ("direct", ref, lambda o: o[0]),
+        ("map-value", _map(ref), lambda o: {"k%d" % i: v for i, v in enumerate(o)}),
+        ("map-of-map", _map(_map(ref)), lambda o: {"m": {"k%d" % i: v for i, v in enumerate(o)}}),
+        ("array", _arr(ref), lambda o: list(o)),
+        ("deque", {"t": "seqeach", "k": "deque", "item": ref, "sz": [None, None], "uniq": False}, lambda o: list(o)),
+        ("set", {"t": "set", "imm": False, "item": ref, "sz": [None, None]}, lambda o: list(o)),
+        # (Tuple takes Field items only: the class reference goes in as a one-alternative AnyOf)
+        ("tuple", {"t": "tuple", "items": [{"t": "anyof", "fs": [ref]}, INT], "uniq": False}, lambda o: [o[0], 1]),
+        ("array-positional", {"t": "seqpos", "k": "list", "items": [ref, INT], "sz": [None, None], "uniq": False,
+                              "additional": None}, lambda o: [o[0], 1]),
+        ("anyof", {"t": "anyof", "fs": [ref, STR]}, lambda o: o[0]),
+        ("oneof", {"t": "oneof", "fs": [INT, ref]}, lambda o: o[0]),
+        ("optional", {"t": "anyof", "fs": [ref, {"t": "none"}]}, lambda o: o[0]),
+        ("array-of-map", _arr(_map(ref)), lambda o: [{"k%d" % i: v for i, v in enumerate(o)}]),
+        ("map-of-array", _map(_arr(ref)), lambda o: {"k": list(o)}),
+        ("map-of-anyof", _map({"t": "anyof", "fs": [ref, INT]}), lambda o: dict({"k%d" % i: v for i, v in enumerate(o)}, n=5)),
+        ("map-of-tuple", _map({"t": "tuple", "items": [{"t": "anyof", "fs": [ref]}, INT], "uniq": False}),
+         lambda o: {"k": [o[0], 1]}),
+    ]
+
+
+# JSON objects of the nested class: plain, with a key that is not a field, with an optional field and such a key
+NEST_INNER_DOCS = [
+    ("no-extra", [{"a": 1}, {"a": 2, "b": "x"}]),
+    ("extra-in-first", [{"a": 1, "zz": 2}, {"a": 2}]),
+    ("extra-in-all", [{"a": 1, "b": "x", "zz": [1]}, {"a": 2, "yy": None, "zz": "q"}]),
+    ("extra-and-invalid", [{"a": "not a number", "zz": 1}, {"a": 2}]),
+]
+
+
+def nest_classes(prefix, inner_additional, top_additional, pos_name, decl_of):
+    """class ASTs: the nested class N (fields a: Integer required, b: String), a middle class M that holds N directly
+    and below a Map, and the top class with field f at the given position, a sibling Map of integers and a sibling
+    direct reference"""
+    n = prefix + "N"
+    inner = {"name": n, "fields": [{"name": "a", "field": INT}, {"name": "b", "field": STR}],
+             "required": ["a"], "additional": inner_additional}
+    top = {"name": prefix + "T", "fields": [{"name": "f", "field": decl_of(n)},
+                                            {"name": "s", "field": _map(INT)},
+                                            {"name": "g", "field": {"t": "ref", "cls": n}}],
+           "required": ["f"], "additional": top_additional}
+    return [inner, top]
